@@ -571,6 +571,35 @@ example : BoolU likeTree = true ∧ noIsGen likeTree = true ∧
       = some (renderU .postgresql likeTree).norm.skel := by
   decide +kernel
 
+/-- non-vacuity for IN / NOT IN: `NOT (a + 1 IN (1, 2, NULL) OR s NOT IN ('x'))` is a boolean tree
+    of the fragment; it builds (the negation switches IN and NOT IN) and the text is read back -/
+def inTree : U :=
+  .not_ (.or_ [.inOp false [.int 1, .int 2, .null] (.bin .add (.col "a" .int) (.li 1)),
+               .inOp true [.str "x"] (.col "s" .str)])
+
+example : BoolU inTree = true ∧ noIsGen inTree = true ∧
+    (match build inTree with | some e => ConcatSafe .sqlite e | none => false) = true ∧
+    (parse sqlite (renderU .sqlite inTree).print).map G.skel = some (renderU .sqlite inTree).norm.skel ∧
+    (parse mysql (renderU .mysql inTree).print).map G.skel = some (renderU .mysql inTree).norm.skel := by
+  decide +kernel
+
+/-- non-vacuity for BETWEEN: `NOT (a + 1 BETWEEN b * 2 AND coalesce(c, 0) - 1) AND a BETWEEN 1 AND 5`
+    is a boolean tree of the fragment (arithmetic bounds are fine: their operators lie above
+    BETWEEN; the cells of finding `between-bound-ungrouped` — a comparison or a boolean as bound —
+    are outside `NumU`); it builds (the negation becomes NOT BETWEEN) and is read back -/
+def btwTree : U :=
+  .and_ [.not_ (.between (.bin .add (.col "a" .int) (.li 1)) (.bin .mul (.col "b" .int) (.li 2))
+                  (.bin .sub (.coalesce [.col "c" .int, .li 0]) (.li 1))),
+         .between (.col "a" .int) (.li 1) (.li 5)]
+
+example : BoolU btwTree = true ∧ noIsGen btwTree = true ∧
+    (match build btwTree with | some e => ConcatSafe .sqlite e | none => false) = true ∧
+    (parse sqlite (renderU .sqlite btwTree).print).map G.skel = some (renderU .sqlite btwTree).norm.skel ∧
+    (parse postgresql (renderU .postgresql btwTree).print).map G.skel
+      = some (renderU .postgresql btwTree).norm.skel ∧
+    (parse mysql (renderU .mysql btwTree).print).map G.skel = some (renderU .mysql btwTree).norm.skel := by
+  decide +kernel
+
 /-- **sqlite_concat_counterexample** (F1): `(1 + 2) || '3'` is emitted without parentheses and
     the SQLite grammar reads the text as `1 + (2 || '3')`.  Replayed on the real code and the
     real SQLite by `known_findings.d/C01.json`. -/
